@@ -320,7 +320,17 @@ def _r5(ctx):
         it_ = strip_transparent(simp(it_))
         if it_[0] == "call" and it_[1] == ("global", "enumerate") and it_[2]:
             return walked(it_[2][0])
-        return it_
+        return per_key(it_)
+
+    def per_key(v):
+        """[key(r, mode) for r in L] with the key chosen per reaction by tests on `mode` alone (a per-reaction key helper) is the list
+        chosen by those tests: the choice does not depend on the reaction, so it is the same for every entry"""
+        if v[0] == "comp" and v[1] in ("list", "gen") and len(v[3]) == 1 and not v[3][0][2]:
+            e = simp(v[2])
+            if e[0] in ("phi", "ifexp") and len(e) == 4 and any(x == MODE for x in walk(e[1])) \
+                    and not any(isinstance(x, tuple) and x and x[0] in ("bv", "elem", "idx") for x in walk(e[1])):
+                return ("phi", e[1], per_key(("comp", v[1], e[2], v[3])), per_key(("comp", v[1], e[3], v[3])))
+        return v
 
     def by_mode(v):
         return v[0] in ("phi", "ifexp") and any(x == MODE for x in walk(v[1]))
